@@ -193,4 +193,72 @@ def flushFillW (m : Mem) (line : Nat) (fs : Fill) : Mem :=
       addSat8WI m line fs.start (fs.size * nXFrac 8) (fs.stop - fs.start)
   else m
 
+/-! ### the row loops on memory
+
+  `bits` is the byte address of `image->bits.bits`, `stride` the rowstride in `uint32_t`.  The loops of
+  `rasterize_edges_N` are written over the list of sample rows they visit — `walkRows` of `Model/Trap.lean`:
+  `(y, l->x, r->x)` for every iteration, the same stepping as `edgesLoop` / `edgesLoop8`.  The C code computes
+  `line = buf + pixman_fixed_to_int (y) * stride` once and adds `stride` at every big step; on the rows visited this
+  is `buf + pixman_fixed_to_int (y) * stride` for the current `y` (`lineAddr`).  `ν` is applied to the memory after
+  every row body; the theorems are about `ν = id`, the driver passes a function that reads the bytes out into an
+  array (Lean re-evaluates a closure-valued memory at every read). -/
+
+/-- byte address of the pixel row of `y` -/
+def lineAddr (bits stride : Nat) (y : Int) : Nat := bits + 4 * ((fixedToInt y).toNat * stride)
+
+/-- `rasterize_edges_1` / `rasterize_edges_4` on memory, over the visited rows -/
+def rowsW (ν : Mem → Mem) (n : Nat) (bits stride : Nat) (width : Int) (rows : List (Int × Int × Int)) (m : Mem) : Mem :=
+  rows.foldl (fun m p =>
+    ν (if n == 1 then row1W m (lineAddr bits stride p.1) width p.2.1 p.2.2
+       else row4W m (lineAddr bits stride p.1) width p.2.1 p.2.2)) m
+
+/-- `rasterize_edges_8` on memory, over the visited rows: the fill state is carried to the next sample row of the
+    same pixel row; at the last sample row of a pixel row (`pixman_fixed_frac (y) == Y_FRAC_LAST (8)`) and at `y == b`
+    (the last visited row) the pending fill is flushed -/
+def rows8W (ν : Mem → Mem) (bits stride : Nat) (width : Int) : List (Int × Int × Int) → Fill → Mem → Mem
+  | [], _, m => m
+  | p :: rest, fs, m =>
+    let line := lineAddr bits stride p.1
+    let q := row8FillW m line width p.2.1 p.2.2 fs
+    if rest.isEmpty || fixedFrac p.1 == yFracLast 8 then
+      rows8W ν bits stride width rest {} (ν (flushFillW (ν q.1) line q.2))
+    else rows8W ν bits stride width rest q.2 (ν q.1)
+
+/-- `pixman_rasterize_edges` on the memory of an a1 / a4 / a8 image -/
+def rasterizeEdgesW (ν : Mem → Mem) (n : Nat) (bits stride : Nat) (width : Int) (m : Mem) (l r : Edge) (t b : Int) : Mem :=
+  let rows := walkRows n b (rowFuel n t b) t l r
+  if n == 8 then rows8W ν bits stride width rows {} m else rowsW ν n bits stride width rows m
+
+/-! The same three loops with the memory kept as the array of its first `total` bytes (`byte` elsewhere): compiled
+    Lean re-evaluates a function-valued definition at every application, so a closure-valued memory makes every read
+    re-run the loop; an array is evaluated once.  The driver runs these; `Lemmas/TrapWordsImg.lean`
+    (`rasterizeEdgesWB_mem`) shows that they are the loops above with `ν` = "read the first `total` bytes out and
+    back" (the identity on a memory that is `byte` from `total` on). -/
+
+/-- the byte memory whose bytes `0 … arr.size-1` are `arr`, `byte` elsewhere -/
+def memOf (arr : Array Nat) (byte : Nat) : Mem := fun a => arr[a]?.getD byte
+
+/-- the bytes `0 … len-1` of a memory -/
+def bytesOf (m : Mem) (len : Nat) : Array Nat := (Array.range len).map fun i => m i
+
+def rowsWB (total byte : Nat) (n : Nat) (bits stride : Nat) (width : Int) (rows : List (Int × Int × Int)) (s : Array Nat) : Array Nat :=
+  rows.foldl (fun s p =>
+    bytesOf (if n == 1 then row1W (memOf s byte) (lineAddr bits stride p.1) width p.2.1 p.2.2
+             else row4W (memOf s byte) (lineAddr bits stride p.1) width p.2.1 p.2.2) total) s
+
+def rows8WB (total byte : Nat) (bits stride : Nat) (width : Int) : List (Int × Int × Int) → Fill → Array Nat → Array Nat
+  | [], _, s => s
+  | p :: rest, fs, s =>
+    let line := lineAddr bits stride p.1
+    let q := row8FillW (memOf s byte) line width p.2.1 p.2.2 fs
+    let s1 := bytesOf q.1 total
+    if rest.isEmpty || fixedFrac p.1 == yFracLast 8 then
+      rows8WB total byte bits stride width rest {} (bytesOf (flushFillW (memOf s1 byte) line q.2) total)
+    else rows8WB total byte bits stride width rest q.2 s1
+
+def rasterizeEdgesWB (total byte : Nat) (n : Nat) (bits stride : Nat) (width : Int) (s : Array Nat) (l r : Edge) (t b : Int) :
+    Array Nat :=
+  let rows := walkRows n b (rowFuel n t b) t l r
+  if n == 8 then rows8WB total byte bits stride width rows {} s else rowsWB total byte n bits stride width rows s
+
 end Pixman.TrapWords
